@@ -1,11 +1,293 @@
-//! C11 (d) — waiter histories on real raw sockets (loopback). Built later in the round.
+//! C11 (d) — matching of replies to waiters: explicit-state search over histories of requests from
+//! two clients, kernel-generated and injected replies / errors / unrelated packets and timeouts on
+//! the real `IcmpForwarder` with raw sockets bound to `lo`. When raw sockets are not permitted the
+//! sub-check reports `skipped` and decides nothing.
+
+use super::common::{build_hosts, Cfg};
+use super::door;
+use crate::engine::explore::{bfs, hash_of, HistOutcome, HistoryModel};
 use crate::engine::report::{Report, Tier, Violation};
+use crate::engine::rt;
+use bytes::Bytes;
 use serde_json::json;
+use std::net::{IpAddr, Ipv4Addr};
+use std::sync::Arc;
+use std::time::Duration;
+use trusttunnel::core::Core;
+use trusttunnel::settings::{Http2Settings, IcmpSettings, ListenProtocolSettings, Settings};
+use trusttunnel::shutdown::Shutdown;
+use trusttunnel::verif_hooks::{self as vh, VIcmpReport};
 
-pub fn run_into(rep: &mut Report, _tier: Tier) {
-    rep.sub.push(json!({"sub":"waiter-histories","status":"not built yet"}));
+const TIMEOUT_MS: u64 = 1000;
+
+#[derive(Clone, Debug, PartialEq, Eq, serde::Serialize, serde::Deserialize)]
+pub enum Op {
+    /// client c sends: 0 = own (id, seq) to 127.0.0.1; 1 = the (id, seq) both clients use, to
+    /// 127.0.0.1; 2 = own (id, seq) to an address that never answers
+    Send(u8, u8),
+    /// the network delivers an echo reply for client c's silent request
+    InjectReply(u8),
+    /// ... a destination-unreachable error quoting it
+    InjectError(u8),
+    /// an echo reply nobody asked for
+    InjectUnrelated,
+    /// the request timeout passes
+    Tick,
 }
 
-pub fn replay(_case: &serde_json::Value) -> Result<(), Violation> {
-    Err(Violation::new("C11:machinery", "no history replay yet", json!({})))
+fn id0() -> u16 {
+    0x4000 | ((std::process::id() as u16) & 0x0fff)
 }
+
+fn req_of(c: u8, kind: u8) -> (u16, u16, Ipv4Addr, u16) {
+    match kind {
+        0 => (id0().wrapping_add(c as u16 * 0x1000), 1, Ipv4Addr::LOCALHOST, 8),
+        1 => (id0().wrapping_add(0x3000), 1, Ipv4Addr::LOCALHOST, 8),
+        _ => (id0().wrapping_add(c as u16 * 0x1000 + 1), 2, Ipv4Addr::new(10, 255, 255, 1), 4),
+    }
+}
+
+fn record(id: u16, dst: Ipv4Addr, seq: u16, ttl: u8, size: u16) -> Bytes {
+    let mut v = Vec::with_capacity(23);
+    v.extend_from_slice(&id.to_be_bytes());
+    v.extend_from_slice(&[0; 12]);
+    v.extend_from_slice(&dst.octets());
+    v.extend_from_slice(&seq.to_be_bytes());
+    v.push(ttl);
+    v.extend_from_slice(&size.to_be_bytes());
+    Bytes::from(v)
+}
+
+fn csum(b: &[u8]) -> u16 {
+    let mut s: u64 = 0;
+    for c in b.chunks(2) {
+        s += ((c[0] as u64) << 8) | (*c.get(1).unwrap_or(&0) as u64);
+    }
+    while s >> 16 != 0 {
+        s = (s & 0xffff) + (s >> 16);
+    }
+    !(s as u16)
+}
+
+struct RawSock(i32);
+impl Drop for RawSock {
+    fn drop(&mut self) {
+        unsafe {
+            libc::close(self.0);
+        }
+    }
+}
+
+fn raw_socket() -> Option<RawSock> {
+    let fd = unsafe { libc::socket(libc::AF_INET, libc::SOCK_RAW, libc::IPPROTO_ICMP) };
+    (fd >= 0).then_some(RawSock(fd))
+}
+
+fn inject(s: &RawSock, msg: &[u8]) {
+    let mut m = msg.to_vec();
+    m[2] = 0;
+    m[3] = 0;
+    let c = csum(&m);
+    m[2..4].copy_from_slice(&c.to_be_bytes());
+    unsafe {
+        let mut a: libc::sockaddr_in = std::mem::zeroed();
+        a.sin_family = libc::AF_INET as libc::sa_family_t;
+        a.sin_addr.s_addr = u32::from_ne_bytes([127, 0, 0, 1]);
+        libc::sendto(s.0, m.as_ptr() as *const libc::c_void, m.len(), 0, &a as *const _ as *const libc::sockaddr, std::mem::size_of::<libc::sockaddr_in>() as u32);
+    }
+}
+
+fn echo_reply(id: u16, seq: u16) -> Vec<u8> {
+    let mut m = vec![0u8, 0, 0, 0];
+    m.extend_from_slice(&id.to_be_bytes());
+    m.extend_from_slice(&seq.to_be_bytes());
+    m
+}
+
+fn unreachable_quoting(id: u16, seq: u16, dst: Ipv4Addr) -> Vec<u8> {
+    let mut m = vec![3u8, 1, 0, 0, 0, 0, 0, 0];
+    // quoted IPv4 header + the first 8 bytes of the echo request
+    m.extend_from_slice(&[0x45, 0, 0, 32, 0x12, 0x34, 0x40, 0, 64, 1, 0, 0]);
+    m.extend_from_slice(&[127, 0, 0, 1]);
+    m.extend_from_slice(&dst.octets());
+    m.extend_from_slice(&[8, 0, 0, 0]);
+    m.extend_from_slice(&id.to_be_bytes());
+    m.extend_from_slice(&seq.to_be_bytes());
+    m
+}
+
+fn make_ctx() -> Result<(Core, vh::VContext), String> {
+    let cfg = Cfg::default();
+    let settings = Settings::builder()
+        .listen_address("127.0.0.1:1")
+        .map_err(|e| e.to_string())?
+        .ipv6_available(false)
+        .listen_protocols(ListenProtocolSettings { http1: None, http2: Some(Http2Settings::builder().build()), quic: None })
+        .icmp(IcmpSettings::builder().interface_name("lo").request_timeout(Duration::from_millis(TIMEOUT_MS)).build().map_err(|e| format!("{e:?}"))?)
+        .build()
+        .map_err(|e| format!("{e:?}"))?;
+    let core = Core::new(settings, None, build_hosts(&cfg)?, Shutdown::new()).map_err(|e| format!("{e:?}"))?;
+    let ctx = vh::context(&core);
+    Ok((core, ctx))
+}
+
+async fn drain(src: &mut vh::VIcmpMuxSource, rounds: u32) -> Vec<VIcmpReport> {
+    let mut out = vec![];
+    let mut idle = 0;
+    while idle < rounds {
+        let r = {
+            let mut f = Box::pin(src.read());
+            door::poll_once(&mut f).await
+        };
+        match r {
+            Some(Ok(x)) => {
+                out.push(x);
+                idle = 0;
+            }
+            Some(Err(_)) => break,
+            None => {
+                idle += 1;
+                tokio::task::yield_now().await;
+            }
+        }
+    }
+    out
+}
+
+async fn run_history(hist: &[Op]) -> Result<HistOutcome, Violation> {
+    let fail = |sig: &str, what: String| Violation::new(format!("C11:waiters:{sig}"), format!("{what}; history {hist:?}"), json!({"kind":"history","history": hist}));
+    let (_core, ctx) = make_ctx().map_err(|e| Violation::new("C11:machinery", e, json!({})))?;
+    let Some(raw) = raw_socket() else {
+        return Err(Violation::new("C11:machinery:raw", "raw sockets are not permitted", json!({})));
+    };
+    let listen = {
+        let ctx = ctx.clone();
+        tokio::spawn(async move { vh::icmp_listen(&ctx).await })
+    };
+    door::spin(50).await;
+    if listen.is_finished() {
+        return Err(Violation::new("C11:machinery:raw", "the ICMP forwarder cannot open its raw socket on lo", json!({})));
+    }
+    let mut muxes = vec![];
+    for _ in 0..2 {
+        muxes.push(vh::icmp_make_multiplexer(&ctx).map_err(|e| Violation::new("C11:machinery", e.to_string(), json!({})))?);
+    }
+    // model: requests still within their timeout: (client, id, seq, sent at ms)
+    let mut pending: Vec<(u8, u16, u16, u64)> = vec![];
+    let mut now_ms = 0u64;
+    for (step, op) in hist.iter().enumerate() {
+        let mut expect: [Vec<(u8, u8, u16, u16)>; 2] = [vec![], vec![]]; // (type, code, id, seq)
+        match op {
+            Op::Send(c, kind) => {
+                let (id, seq, dst, size) = req_of(*c, *kind);
+                let sent = muxes[*c as usize].1.write_request(record(id, dst, seq, 64, size)).await;
+                match sent {
+                    Ok(true) => {}
+                    other => return Err(fail("request-not-sent", format!("step {step} {op:?}: the echo request was not emitted ({other:?})"))),
+                }
+                pending.push((*c, id, seq, now_ms));
+                if *kind != 2 {
+                    expect[*c as usize].push((0, 0, id, seq)); // the kernel answers for 127.0.0.1
+                }
+            }
+            Op::InjectReply(c) | Op::InjectError(c) => {
+                let (id, seq, dst, _) = req_of(*c, 2);
+                let is_reply = matches!(op, Op::InjectReply(_));
+                inject(&raw, &if is_reply { echo_reply(id, seq) } else { unreachable_quoting(id, seq, dst) });
+                if pending.iter().any(|p| p.0 == *c && p.1 == id && p.2 == seq) {
+                    expect[*c as usize].push(if is_reply { (0, 0, id, seq) } else { (3, 1, id, seq) });
+                }
+            }
+            Op::InjectUnrelated => inject(&raw, &echo_reply(id0().wrapping_add(0x0777), 77)),
+            Op::Tick => {
+                tokio::time::advance(Duration::from_millis(TIMEOUT_MS + 1)).await;
+                now_ms += TIMEOUT_MS + 1;
+                pending.retain(|p| now_ms - p.3 <= TIMEOUT_MS);
+            }
+        }
+        door::spin(120).await;
+        for c in 0..2usize {
+            let got: Vec<(u8, u8, u16, u16)> = drain(&mut muxes[c].0, 40)
+                .await
+                .into_iter()
+                .map(|r| {
+                    let (id, seq) = r.responded.unwrap_or((0, 0));
+                    (r.type_id, r.code, id, seq)
+                })
+                .collect();
+            let mut want = expect[c].clone();
+            let mut g = got.clone();
+            want.sort();
+            g.sort();
+            if g != want {
+                let kind = if g.len() < want.len() { "report-missing" } else if g.len() > want.len() { "spurious-or-misdirected-report" } else { "wrong-report" };
+                let ctx_kind = match op {
+                    Op::Send(_, 1) => "same-id-seq-from-two-clients",
+                    Op::Send(..) => "own-request",
+                    Op::InjectReply(_) => "injected-reply",
+                    Op::InjectError(_) => "injected-error",
+                    Op::InjectUnrelated => "unrelated-reply",
+                    Op::Tick => "timeout",
+                };
+                return Err(fail(&format!("{kind}:{ctx_kind}"), format!("step {step} {op:?}: client {c} was reported {got:?}, expected {want:?} (type, code, id, seq)")));
+            }
+        }
+        let (waiters, deadlines) = vh::icmp_waiters_len(&ctx);
+        if waiters != pending.len() || deadlines != pending.len() {
+            let how = if waiters > pending.len() || deadlines > pending.len() { "not-forgotten" } else { "lost" };
+            return Err(fail(&format!("waiter-table:{how}:{}", if matches!(op, Op::Tick) { "after-timeout" } else { "after-request" }), format!("step {step} {op:?}: {waiters} waiters / {deadlines} deadline entries, {} request(s) within their timeout", pending.len())));
+        }
+    }
+    listen.abort();
+    let canon = hash_of(&pending.iter().map(|p| (p.0, p.1, p.2, now_ms - p.3)).collect::<Vec<_>>());
+    Ok(HistOutcome { canon, extend: true })
+}
+
+struct M;
+impl HistoryModel for M {
+    type Op = Op;
+    fn ops(&self) -> Vec<Op> {
+        vec![Op::Send(0, 0), Op::Send(0, 1), Op::Send(1, 1), Op::Send(0, 2), Op::Send(1, 2), Op::InjectReply(0), Op::InjectError(1), Op::InjectUnrelated, Op::Tick]
+    }
+    fn run(&self, hist: &[Op]) -> Result<HistOutcome, Violation> {
+        rt::run_paused(run_history(hist))
+    }
+}
+
+pub fn run_into(rep: &mut Report, tier: Tier) {
+    // probe: are raw sockets available?
+    if raw_socket().is_none() {
+        rep.sub.push(json!({"sub":"waiter-histories","status":"skipped","reason":"socket(AF_INET, SOCK_RAW, IPPROTO_ICMP) is not permitted here"}));
+        return;
+    }
+    let depth = tier.pick(4usize, 5usize);
+    // raw ICMP sockets see every ICMP packet of the host: one worker, so histories do not hear each other
+    let (st, viol, samples) = bfs(&M, depth, Duration::from_secs(tier.pick(40, 900)), 1, &|| {});
+    let mut viol = viol;
+    viol.sort_by_key(|(h, _)| h.len());
+    let mut machinery_raw = false;
+    for (_, v) in viol {
+        if v.signature.starts_with("C11:machinery:raw") {
+            machinery_raw = true;
+            continue;
+        }
+        rep.violation(v);
+    }
+    if machinery_raw {
+        rep.sub.push(json!({"sub":"waiter-histories","status":"skipped","reason":"the forwarder could not open/bind its raw socket on lo"}));
+        return;
+    }
+    rep.add("evaluations", st.transitions);
+    rep.add("distinct_nontrivial", st.states);
+    rep.sub.push(json!({"sub":"waiter-histories","states":st.states,"transitions":st.transitions,"max_depth_completed":st.max_depth_completed,"capped":st.capped,
+        "what":"BFS over histories of {request from client 0/1 to 127.0.0.1 with own or shared (id, seq), request to a silent address, injected echo reply / destination-unreachable quoting the silent request, unrelated reply, request timeout}: every report goes to the sender of the matching request and to nobody else, late and unrelated packets are not reported, waiter table == requests within their timeout",
+        "samples": samples.into_iter().take(3).collect::<Vec<_>>()}));
+}
+
+pub fn replay(case: &serde_json::Value) -> Result<(), Violation> {
+    let hist: Vec<Op> = serde_json::from_value(case["history"].clone()).map_err(|_| Violation::new("C11:machinery", "bad replay file", json!({})))?;
+    rt::run_paused(run_history(&hist)).map(|_| ())
+}
+
+#[allow(dead_code)]
+fn _unused(_: Arc<()>, _: IpAddr) {}
